@@ -118,7 +118,7 @@ func runBessel(c *fw.Ctx) {
 		}
 		b.flush(cs)
 	})
-	c.Cases("bessel.sweep", c.N(1500, 40000), func(cs *fw.Case) {
+	c.Cases("bessel.sweep", c.N(1500, 20000), func(cs *fw.Case) {
 		b := &rec{}
 		for i := 0; i < 4; i++ {
 			v, x := besselSweepPoint(cs.R)
